@@ -55,9 +55,10 @@ def concrete(symlist):
 
 # ------------------------------------------------------------------ (b)
 KIND = {
-    'a': lambda deps: "a = command('a', cmd=['echo', 'a'], extra_deps=[%s])" % deps,
+    # (two project names that differ only in their directory part)
+    'a': lambda deps: "a = command('x/gen', cmd=['echo', 'a'], extra_deps=[%s])" % deps,
     'b': lambda deps: "b = build_step('b.txt', cmd=['touch', 'b.txt'], extra_deps=[%s])" % deps,
-    'c': lambda deps: "c = alias('c', [%s])" % deps,
+    'c': lambda deps: "c = alias('y/gen', [%s])" % deps,
     'd': lambda deps: "d = copy_file('m.c', 'd.c', extra_deps=[%s])" % deps,
 }
 
